@@ -117,6 +117,11 @@ func (srv *Server) ServeDNS(w dns.ResponseWriter, r *dns.Msg) {
 }
 
 func (srv *Server) handleRequest(wkr *mgr.WorkerCtx, w dns.ResponseWriter, r *dns.Msg) {
+	// A message without a question cannot be answered from the name space.
+	if len(r.Question) == 0 {
+		srv.replyNotFound(wkr, w, r)
+		return
+	}
 	q := r.Question[0]
 	queryName := strings.ToLower(q.Name)
 
@@ -285,7 +290,7 @@ func (srv *Server) replyMsg(wkr *mgr.WorkerCtx, w dns.ResponseWriter, reply *dns
 	if err != nil {
 		wkr.Error(
 			"failed to set write deadline for dns response",
-			"name", reply.Question[0].Name,
+			"name", questionName(reply),
 			"rcode", reply.Rcode,
 			"err", err,
 		)
@@ -296,9 +301,17 @@ func (srv *Server) replyMsg(wkr *mgr.WorkerCtx, w dns.ResponseWriter, reply *dns
 	if err != nil {
 		wkr.Error(
 			"failed to write dns response",
-			"name", reply.Question[0].Name,
+			"name", questionName(reply),
 			"rcode", reply.Rcode,
 			"err", err,
 		)
 	}
+}
+
+// questionName returns the name of the first question, if there is one.
+func questionName(msg *dns.Msg) string {
+	if len(msg.Question) == 0 {
+		return ""
+	}
+	return msg.Question[0].Name
 }
